@@ -1,0 +1,24 @@
+//go:build verif
+
+// Package verifhook provides yield points for schedule-directed verification.
+// With the "verif" build tag a controller installed with Set decides what happens
+// at each point (pass, yield, sleep, rendezvous, wait for an event).
+package verifhook
+
+import "sync/atomic"
+
+type handlerBox struct{ f func(point string) }
+
+var handler atomic.Value // handlerBox
+
+// Set installs (or, with nil, removes) the controller called at every Yield.
+func Set(f func(point string)) {
+	handler.Store(handlerBox{f: f})
+}
+
+// Yield calls the installed controller, if any.
+func Yield(point string) {
+	if h, ok := handler.Load().(handlerBox); ok && h.f != nil {
+		h.f(point)
+	}
+}
